@@ -1,7 +1,7 @@
 """C12 check configuration (data only)."""
 from propbase import KERNEL, HARNESS
 
-PROP = {'gen': ['sixel'],
+PROP = {'gen': ['sixel', 'octree'],
  'coq_props': ['theories/Props/C12.vo'],
  'coq_corr': ['theories/Corr/C12Corr.vo'],
  'props_file': 'theories/Props/C12.v',
@@ -35,6 +35,7 @@ PROP = {'gen': ['sixel'],
                   'checked against the exact linear-light mix of Image/SrgbSpec.v (IEC 61966-2-1 table, independent of the crates) within '
                   '+-1 level; Surface::hash (cache key) is an oracle',
                   HARNESS],
- 'assumptions': ['the 64-bit FNV content hash used as cache key does not collide between different images drawn on one handler',
+ 'assumptions': ['an image has at most 2^56 pixels (src_ok; the octree accumulators of the regenerated widths then never overflow, see C13)',
+                 'the 64-bit FNV content hash used as cache key does not collide between different images drawn on one handler',
                  'the encoded-image cache stays below its 128 MB eviction threshold',
                  'io errors of the writer are outside the model']}
